@@ -276,6 +276,11 @@ def main(argv):
         eng.run(report)
         replay_findings(prop, eng, report)
         wall = time.time() - t0
+        old_dir = os.path.join(env.VERIF, "replays", prop)
+        if os.path.isdir(old_dir):
+            for f in os.listdir(old_dir):   # replay files describe the latest run only
+                if f.endswith(".json"):
+                    os.unlink(os.path.join(old_dir, f))
         seen = set()
         lines = []
         report.violations.sort(key=lambda v: len(json.dumps(v["payload"], default=repr)))
